@@ -312,6 +312,42 @@ def part_access(ctx, shard):
                     ctx.violation(base + "|mode=" + m, case, None, type(r).__name__)
                 if r.size and np.shares_memory(r, parent):
                     ctx.violation(base + "|mode=copy-shares-memory", case, False, True)
+            # in-place operators and out= on a view return an object that is still attached to the parent's data
+            if a.ndim >= 1 and a.size >= 1 and dtype.startswith("float"):
+                import operator as _op
+
+                for oname, o, other in (
+                    ("iadd-quantity", _op.iadd, unyt_quantity(1.0, "m")),
+                    ("iadd-other-unit", _op.iadd, unyt_quantity(1.0, "km")),
+                    ("isub-quantity", _op.isub, unyt_quantity(1.0, "cm")),
+                    ("imul-bare", _op.imul, 2.0),
+                    ("imul-dimensionless", _op.imul, unyt_quantity(2.0, "dimensionless")),
+                    ("itruediv-bare", _op.itruediv, 2.0),
+                    ("ufunc-out", lambda x, y: np.add(x, y, out=x), unyt_quantity(1.0, "m")),
+                    ("ufunc-out-multiply", lambda x, y: np.multiply(x, y, out=x), 3.0),
+                ):
+                    for sub_name, sub in (("whole", lambda v: v), ("first-element", lambda v: v[:1]), ("first-two", lambda v: v[:2])):
+                        ctx.count("evaluations")
+                        par = unyt_array(data.copy(), "m", name="nm")
+                        view = sub(mk(par))
+                        if view.size == 0:
+                            continue
+                        before = np.array(np.asarray(view.d), copy=True)
+                        try:
+                            res = o(view, other)
+                        except Exception as e:  # noqa: BLE001
+                            ctx.count("inplace_on_view_refused")
+                            continue
+                        case = dict(case0, call=oname, sub=sub_name)
+                        base = f"C16|inplace-view|op={oname}|sub={sub_name}|view={vname}"
+                        ctx.decided(("inplace-view", shape, dtype, vname, oname, sub_name))
+                        if not isinstance(res, unyt_array):
+                            ctx.violation(base + "|mode=units-dropped", case, "unyt object", type(res).__name__)
+                            continue
+                        if not np.shares_memory(res, par):
+                            ctx.violation(base + "|mode=view-detached-from-parent", case, True, False)
+                        if np.array_equal(np.asarray(view.d), before):
+                            ctx.violation(base + "|mode=in-place-operation-did-not-reach-the-parent", case, "changed", "unchanged")
             for name, f in RESHAPERS.items():
                 if f is None:
                     continue
@@ -384,6 +420,11 @@ def part_construct(ctx, shard):
         if shape != ():
             judge("unyt_array(ndarray)", unyt_array(src, "m"), data, src, True, m)
             judge("unyt_array(ndarray,Unit)", unyt_array(src, m), data, src, True, m)
+            judge("unyt_array(ndarray,dtype=same)", unyt_array(src, "m", dtype=src.dtype), data, src, True, m)
+            judge("unyt_array(ndarray,dtype=same-name)", unyt_array(src, "m", dtype=str(src.dtype)), data, src, True, m)
+            judge("unyt_array(ndarray,name=)", unyt_array(src, "m", name="x"), data, src, True, m)
+            judge("unyt_array(ndarray,bypass_validation)", unyt_array(src, m, bypass_validation=True), data, src, True, m)
+            judge("unyt_array(ndarray,registry=)", unyt_array(src, "m", registry=m.registry), data, src, True, m)
             judge("unyt_array(list)", unyt_array(data.tolist(), "m"), np.asarray(data.tolist()), None, None, m)
             inner = unyt_array(src, "m")
             judge("unyt_array(unyt_array)", unyt_array(inner), data, None, None, m)
@@ -440,6 +481,16 @@ def part_construct(ctx, shard):
             want2 = np.array([float(x) * [1.0, 1e5][i % 2] for i, x in enumerate(data)])
             judge("unyt_array(list-of-quantities-mixed-units-cm-first)", unyt_array(mixed2), want2, None, None, cm, tol=8 * 2.0**-52)
             judge("unyt_array(tuple-of-quantities)", unyt_array(tuple(mixed)), want, None, None, km, tol=8 * 2.0**-52)
+            # the same unit NAME with different sizes in two registries: coercion converts by size, not by spelling
+            from unyt import dimensions as _ud
+            from unyt.unit_registry import UnitRegistry as _UR
+
+            r1, r2 = _UR(), _UR()
+            r1.add("code_length", 1.0, _ud.length)
+            r2.add("code_length", 10.0, _ud.length)
+            two = [unyt_quantity(float(x), "code_length", registry=(r1, r2)[i % 2]) for i, x in enumerate(data)]
+            want_two = np.array([float(x) * (1.0, 10.0)[i % 2] for i, x in enumerate(data)])
+            judge("unyt_array(list-of-quantities-two-registries)", unyt_array(two), want_two, None, None, None, tol=8 * 2.0**-52)
             if n >= 1:
                 arrs = [unyt_array(np.array([float(x), float(x) + 1.0]), units[i % 3]) for i, x in enumerate(data)]
                 want3 = np.array([[float(x) * ratio[i % 3], (float(x) + 1.0) * ratio[i % 3]] for i, x in enumerate(data)])
